@@ -33,7 +33,8 @@ func vpC09Build(ver RoomVersion) *vpC09State {
 	if vpNondetBool("tpi_in_state") {
 		idPub, _ := vpKey("identity-server")
 		k := spec.Base64Bytes(idPub).Encode()
-		s.events = append(s.events, vpMkEvent(ver, "$tpi:y", s.room, vpCarol, spec.MRoomThirdPartyInvite, vpStrPtr("tok"),
+		// issued by any of the three users (only its issuer may redeem it)
+		s.events = append(s.events, vpMkEvent(ver, "$tpi:y", s.room, vpChoice("tpi_issuer", vpCarol, vpAlice, vpBob), spec.MRoomThirdPartyInvite, vpStrPtr("tok"),
 			vpJObj("display_name", "d", "key_validity_url", "https://id.example/valid", "public_key", k,
 				"public_keys", vpJArr(vpJObj("public_key", k, "key_validity_url", "https://id.example/valid")))))
 	}
